@@ -13,3 +13,15 @@ package mapper
 //@   ensures r ==> old(len(x) == len(y))
 //@   ensures r && old(len(x)) != 0 ==> exhausted(1)
 //@   tags C08
+//@ // a user's aggregate is reused as the source of another only when, target by target, the filter compared
+//@ // is that of the requested target against that of the candidate's target at the same position
+//@ extern (immutable.Option[request.Filter]).HasValue(o) -> (b)
+//@   pure
+//@ extern (immutable.Option[request.Filter]).Value(o) -> (v)
+//@   pure
+//@ func tryGetMatchingAggregate
+//@   assert before call#1 DeepEqual: as(arg0, map[string]any) == res(Value, 1, 0).Conditions
+//@   assert before call#1 DeepEqual: as(arg1, map[string]any) == res(Value, 2, 0).Conditions
+//@   assert before call#1 DeepEqual: callarg(Value, 1, 0) == target.filter
+//@   assert before call#1 DeepEqual: callarg(Value, 2, 0) == potentialMatchingTarget.filter
+//@   tags C08
